@@ -159,6 +159,15 @@ class C03(IRProp):
                     tgt = case.blocks[bi]["ins"][-1][1]
                     if case.blocks[tgt].get("func") is not None and case.blocks[tgt].get("func") == case.blocks[bi].get("func"):
                         return "C03-patch-ret-behind-call-into-own-function"
+            # F4: every ret of a function is deleted / replaced while a patch puts a new ret into the same function: the call sites are
+            # only recorded as the Return edges of the function's ret blocks, so they are forgotten in between
+            if not extra - {x for x in extra if x[1] == "proxy"} and all(x[0] == "Return" for x in missing):
+                for f in {x.get("func") for x in case.blocks if x.get("func") is not None}:
+                    rets = [i for i, x in enumerate(case.blocks) if x.get("func") == f and x["kind"] == "c" and x["ins"][-1][0] == "ret"]
+                    gone = [i for i in rets if any(bi == i and t in ("del", "rep") and off + ln == case.size(i) for (bi, t, off, ln, patch, _) in case.mods)]
+                    new = any(case.blocks[bi].get("func") == f and t != "del" and isinstance(patch, str) and "ret" in patch for (bi, t, off, ln, patch, _) in case.mods)
+                    if rets and gone == rets and new:
+                        return "C03-call-sites-forgotten-when-every-ret-is-replaced"
             return None
         return None
 
